@@ -278,6 +278,12 @@ def many_rows_relation(j, X, Y, reg, a, k):
     j.note("more_than_4096_rows")
 
 
+def _routes_rule():
+    from . import forms
+
+    return forms.RULE_SUFFIX
+
+
 def routes(rng, n=8):
     """Public routes to the same fitted model, drawn per fit: how the estimator is configured, which entry point fits
     it, which containers carry the numbers."""
